@@ -2,6 +2,7 @@
 C16 — conversion context changes only what it is documented to change.
 -/
 import Chokan.Lemmas.Kkc
+import Chokan.Gen.Server
 
 namespace Chokan.Props.C16
 open Chokan.Kkc Chokan.Dic
@@ -113,5 +114,13 @@ witness is replayed on the implementation by the C16 check (known finding D11-fo
 theorem C16_only_suffix_headed_additions_false :
     onlyAdds .foreignWord Speech.isSuffix [12367, 12427, 12414, 12391, 12399] d11Dict 10 200 = false := by
   decide +kernel
+
+
+/-- **Which context a request runs under** (regenerated from method.rs): the three kinds of GetCandidates' `context` map to
+their own contexts, a request without `context` is a normal conversion, and GetProperCandidates — and only it — converts
+(and files its session) under the proper-noun context. -/
+theorem C16_rpc_contexts :
+    Chokan.Gen.Server.rpcContexts = [("Normal", .normal), ("ForeignWord", .foreignWord), ("Numeral", .numeral)] ∧
+    Chokan.Gen.Server.rpcDefaultKind = "Normal" ∧ Chokan.Gen.Server.rpcProperContext = .proper := by decide
 
 end Chokan.Props.C16
